@@ -51,6 +51,16 @@ MkOptXY(s, r, x, y) ==
       m == IF x \div 4 = 1 /\ (~o.cred \/ g \in {"empty", "nosg"}) THEN "deny" ELSE "allow"
   IN [o EXCEPT !.grp = g, !.gmap = m, !.hn = NameOf(y % 3), !.dn = NameOf(y \div 3)]
 MkOptX(s, r, x) == MkOptXY(s, r, x, YDefault)
+\* Runner level: what the two runners built on forkexec ask for, transcribed from their Run():
+\*   runner/unshare/run_linux.go : NoNewPrivs, DropCaps, the filter, CloneFlags = NEWNS|NEWPID|NEWUSER|NEWUTS|
+\*       NEWCGROUP, HostName/DomainName, UnshareCgroupAfterSync -- for EVERY caller (the caller is mapped to
+\*       uid 0 of the new user namespace and holds every capability there, whoever it is outside)
+\*   runner/ptrace/run_linux.go  : the filter, Ptrace, UnshareCgroupAfterSync iff the caller is root
+UnshareRunnerOpt(sync) ==
+  [MkOpt(0, 0) EXCEPT !.dropcaps = TRUE, !.nnp = TRUE, !.seccomp = TRUE, !.sync = sync, !.ucg = TRUE,
+                      !.user = TRUE, !.pid = TRUE, !.mnt = TRUE, !.uts = TRUE, !.cgns = TRUE]
+PtraceRunnerOpt(sync, root) ==
+  [MkOpt(0, 0) EXCEPT !.seccomp = TRUE, !.ptrace = TRUE, !.sync = sync, !.ucg = root]
 \* the drivers give a gid map exactly when a user namespace is requested
 GidMapGiven(o) == o.user
 SetgroupsDenied(o) == o.user /\ o.gmap = "deny"
